@@ -47,6 +47,17 @@ def hexVal? (c : Char) : Option Nat :=
 
 def inClass (cls : List Nat) (c : Char) : Bool := cls.contains c.toNat
 
+/-- the text starts with one character of each class in turn -/
+def matchClasses : List (List Nat) → Str → Bool
+  | [], _ => true
+  | _ :: _, [] => false
+  | cl :: cls, c :: cs => inClass cl c && matchClasses cls cs
+
+def dropClasses : List (List Nat) → Str → Str
+  | [], s => s
+  | _ :: cls, _ :: cs => dropClasses cls cs
+  | _ :: _, [] => []
+
 /-- `chr(n)`: fails outside the code space (surrogates are *accepted* by Python but are not
     Lean characters: the repaired code never calls `chr` on one) -/
 def pyChr (n : Nat) : Except Err Char :=
